@@ -30,3 +30,61 @@ package verifspec
 //@ property C17 C10
 //@   requires file != nil && s.FileSet != nil
 //@   ensures str(result) == fileNameOf(ref(s.FileSet), posOf(ref(file)))
+
+// ---- PrepareAllSources: the phases of whole-program preparation are barriers.  Every package's files are sorted before
+// ANY package is type-checked (type-checking one package pulls in its dependencies through the importer, in whatever
+// order their files are in at that moment); all are type-checked before linknames are parsed and the files simplified;
+// every package's generic instances are collected before the collector is finished, and that before any package is
+// analysed; all are analysed before the analysis is propagated.
+//@ extern compiler/sources.Sources.Sort
+//@   param s
+//@   ghost nSorted = nSorted + 1
+//@ extern compiler/sources.Sources.TypeCheck
+//@   param s importer sizes tContext
+//@   ghost nChecked = nChecked + 1
+//@ extern compiler/sources.Sources.ParseGoLinknames
+//@   param s
+//@   ghost nLinked = nLinked + 1
+//@ extern compiler/sources.Sources.Simplify
+//@   param s
+//@   ghost nSimplified = nSimplified + 1
+//@ extern compiler/sources.Sources.CollectInstances
+//@   param s tc
+//@   ghost nCollected = nCollected + 1
+//@ extern compiler/internal/typeparams.Collector.Finish
+//@   param c
+//@   ghost finished = true
+//@ extern compiler/sources.Sources.Analyze
+//@   param s importer tContext instances
+//@   ghost nAnalyzed = nAnalyzed + 1
+//@ extern compiler/internal/analysis.PropagateAnalysis
+//@   param allInfo
+//@   ghost propagated = true
+
+//@ func compiler.PrepareAllSources
+//@ property C17
+//@   requires forall(k, 0, len(allSources), allSources[k] != nil)
+//@   ghost nSorted = 0
+//@   ghost nChecked = 0
+//@   ghost nLinked = 0
+//@   ghost nSimplified = 0
+//@   ghost nCollected = 0
+//@   ghost nAnalyzed = 0
+//@   ghost finished = false
+//@   ghost propagated = false
+//@   loop 1 invariant 0 <= $i1 && $i1 <= len(allSources) && nSorted == $i1 && nChecked == 0
+//@   loop 2 invariant 0 <= $i2 && $i2 <= len(allSources) && nSorted == len(allSources) && nChecked == $i2 && nLinked == 0 && nSimplified == 0 && nCollected == 0
+//@   loop 3 invariant 0 <= $i3 && $i3 <= len(allSources) && nChecked == len(allSources) && nLinked == $i3 && nSimplified == 0 && nCollected == 0
+//@   loop 4 invariant 0 <= $i4 && $i4 <= len(allSources) && nChecked == len(allSources) && nLinked == len(allSources) && nSimplified == $i4 && nCollected == 0
+//@   loop 5 invariant 0 <= $i5 && $i5 <= len(allSources) && nSimplified == len(allSources) && nCollected == $i5 && !finished && nAnalyzed == 0
+//@   loop 6 invariant 0 <= $i6 && $i6 <= len(allSources) && nCollected == len(allSources) && finished && nAnalyzed == $i6 && !propagated
+//@   loop 7 assigns elems(allInfo)
+//@   loop 7 invariant 0 <= $i7 && $i7 <= len(allSources) && nAnalyzed == len(allSources) && finished && !propagated && len(allInfo) == len(allSources)
+//@   oncall TypeCheck: assert nSorted == len(allSources)
+//@   oncall ParseGoLinknames: assert nChecked == len(allSources)
+//@   oncall Simplify: assert nLinked == len(allSources)
+//@   oncall CollectInstances: assert nSimplified == len(allSources)
+//@   oncall Finish: assert nCollected == len(allSources)
+//@   oncall Analyze: assert finished && nCollected == len(allSources)
+//@   oncall PropagateAnalysis: assert nAnalyzed == len(allSources)
+//@   ensures result == nil ==> nSorted == len(allSources) && nChecked == len(allSources) && nLinked == len(allSources) && nSimplified == len(allSources) && nCollected == len(allSources) && finished && nAnalyzed == len(allSources) && propagated
